@@ -40,6 +40,20 @@ type H struct {
 	failed []string
 	env    *nativeEnv
 	Out    []string
+	Quiet  bool // buffer output (used when a replay is repeated to resample map order)
+}
+
+// Failed reports whether an assertion failed so far.
+func (h *H) Failed() bool { return len(h.failed) > 0 }
+
+// Flush prints buffered output.
+func (h *H) Flush() {
+	if h.Quiet {
+		for _, s := range h.Out {
+			fmt.Println(s)
+		}
+		h.Quiet = false
+	}
 }
 
 func NewReplay(tb TB, modelPath string) *H {
@@ -60,7 +74,9 @@ func (h *H) HarnessName() string { return h.model.Harness }
 func (h *H) emit(format string, a ...any) {
 	s := fmt.Sprintf(format, a...)
 	h.Out = append(h.Out, s)
-	fmt.Println(s)
+	if !h.Quiet {
+		fmt.Println(s)
+	}
 }
 
 // Done reports the outcome; call at the end of the replay test.
